@@ -201,6 +201,46 @@ theorem sim_not_deployed_never_surveyed (w : World) (prog : Program) (inp : Inpu
   rw [hs]
   exact (Sched.not_deployed_never_planned (schedCfg c) hnd i hg ds ⟨inp.date N, fun _ => .untouched⟩).2
 
+/-- one simulated day is one `Sched.scheduleDay` on the method's schedule, dated by the calendar input -/
+theorem sim_sched_step (w : World) (prog : Program) (inp : Inputs) (m : Nat) (c : MethodCfg)
+    (hc : prog[m]? = some c) (hr : c.role ≠ .followUp) (n : Nat) :
+    ∃ out, ((simState w prog inp (n + 1)).ms.getD m {}).sched =
+      Sched.scheduleDay (schedCfg c) { date := inp.date n, out := out } ((simState w prog inp n).ms.getD m {}).sched := by
+  have e : (simState w prog inp (n + 1)).ms =
+      (stepMethods w inp n (actStates w n (simState w prog inp n)) 0 prog
+        { ms := (simState w prog inp n).ms, latestTag := (simState w prog inp n).latestTag,
+          covs := (simState w prog inp n).covs }).ms := rfl
+  have h := (stepMethods_sched w inp n (actStates w n (simState w prog inp n)) m prog 0
+    { ms := (simState w prog inp n).ms, latestTag := (simState w prog inp n).latestTag,
+      covs := (simState w prog inp n).covs } (by simp [ms_length])).2
+  simp only [Nat.sub_zero, hc] at h
+  rw [if_pos (⟨Nat.zero_le m, hr⟩ : 0 ≤ m ∧ c.role ≠ .followUp)] at h
+  obtain ⟨out, hout⟩ := h
+  exact ⟨out, by rw [e, hout]⟩
+
+/-- **C06 stationary clause in the integrated simulation**: on every simulated day a stationary method plans
+each site holding a request exactly once, every deployed site holds one on every day of its deployment
+calendar, and a planned site is counted (once, in the day's year) exactly when the day is workable for it -/
+theorem sim_stationary_day (w : World) (prog : Program) (inp : Inputs) (m : Nat) (c : MethodCfg)
+    (hc : prog[m]? = some c) (hr : c.role ≠ .followUp) (hnd : (schedCfg c).sites.Nodup)
+    (hk : (schedCfg c).kind = .stationary) (n : Nat) :
+    ∃ (ds : List Sched.DayIn) (d : Sched.DayIn), d.date = inp.date n ∧
+      ((simState w prog inp n).ms.getD m {}).sched = Sched.runDays (schedCfg c) ds ∧
+      ((simState w prog inp (n + 1)).ms.getD m {}).sched = Sched.scheduleDay (schedCfg c) d (Sched.runDays (schedCfg c) ds) ∧
+      (Sched.planOn (schedCfg c) d (Sched.runDays (schedCfg c) ds)).Nodup ∧
+      (∀ i ∈ (schedCfg c).sites, d.date.y ∈ ((schedCfg c).P i).depYears → d.date.m ∈ ((schedCfg c).P i).months →
+        0 < Sched.required ((schedCfg c).P i) d.date.y → i ∈ Sched.planOn (schedCfg c) d (Sched.runDays (schedCfg c) ds)) ∧
+      (∀ i y, Sched.done ((((simState w prog inp (n + 1)).ms.getD m {}).sched).pl i) y =
+        Sched.done ((((simState w prog inp n).ms.getD m {}).sched).pl i) y +
+          (if Sched.completesAt (schedCfg c) d (Sched.runDays (schedCfg c) ds) i = true ∧ y = d.date.y then 1 else 0)) := by
+  obtain ⟨ds, _, hs⟩ := sim_sched_runDays w prog inp m c hc hr n
+  obtain ⟨out, hstep⟩ := sim_sched_step w prog inp m c hc hr n
+  have hst := Sched.C06_stationary (schedCfg c) ds { date := inp.date n, out := out } hnd hk
+  refine ⟨ds, { date := inp.date n, out := out }, rfl, hs, by rw [hstep, hs], hst.1, hst.2.1, ?_⟩
+  intro i y
+  rw [hstep, hs]
+  exact hst.2.2.2 i y
+
 /-- non-vacuity: the mobile OGI method of the example program of `Props/Sim.lean` meets the hypotheses of
 `sim_done_le_required` (mobile, not a follow-up method, distinct sites, a valid start date) -/
 example : (schedCfg exOGI).kind = .routine ∧ (schedCfg exOGI).sites.Nodup ∧ exOGI.role ≠ .followUp ∧
